@@ -596,7 +596,15 @@ class Interp:
             keys |= {k for k in e if isinstance(k, str) and not k.startswith("@")}
         for k in keys:
             outs = [e.get(k, BOT) for e in ends]
-            out = outs[0] if all(o == outs[0] for o in outs) else phi(*outs)
+            if all(o == outs[0] for o in outs):
+                out = outs[0]
+            elif all(_is_container(o) or o == BOT for o in outs):
+                out = BOT
+                for o in outs:
+                    if o != BOT:
+                        out = _join_container(out, o) if out != BOT else o
+            else:
+                out = phi(*outs)
             if k in pre:
                 lv = ("lv", k, lid)
                 env[k] = self._summarise(pre[k], out, lv, k)
@@ -725,6 +733,8 @@ class Interp:
             key = self.expr(t.slice, env, fi)
             if isinstance(base, ast.Name) and base.id in env:
                 cur = env[base.id]
+                if env.get("@absloop"):
+                    v = self._guarded(env, v)
                 env[base.id] = self._store(cur, key, v)
             elif isinstance(base, ast.Subscript) or isinstance(base, ast.Attribute):
                 d = dotted(base) or norm_stmt(base)
@@ -1122,6 +1132,10 @@ class Interp:
         if k == "slice" and key[0] == "const" and isinstance(key[1], int) and key[1] >= 0 \
                 and base[2][0] == "const" and (base[2][1] or 0) >= 0 and base[4] == NONE:
             return self.index(base[1], const((base[2][1] or 0) + key[1]))
+        if k == "zipT":
+            alts = [self.index(x, key) for x in alternatives(base[1])
+                    if x[0] in ("tuple", "list", "nt")]
+            return ("col", phi(*alts)) if alts else top("zipT of non-tuples")
         if k == "map":
             return self.apply(base[1], [self.index(base[2], key)])
         if k == "comp":
@@ -1252,6 +1266,8 @@ class Interp:
             return ("call", f[1], *args)
         if k == "gphi":
             return ("gphi", f[1], self.apply(f[2], args, kwargs), self.apply(f[3], args, kwargs))
+        if k == "phi":
+            return phi(*[self.apply(x, args, kwargs) for x in f[1:]])
         if k == "native":
             return ("native", f[1], *args)
         return ("call", repr(f), *args)
@@ -1490,10 +1506,18 @@ class Interp:
             if x[0] == "map":
                 return x
             return ("call", name, x)
+        if name == "zip" and len(a) == 1 and a[0][0] == "star":
+            inner = a[0][1]
+            if inner[0] == "values" and inner[1][0] == "dictof":
+                return ("zipT", inner[1][2])
+            if inner[0] == "listof":
+                return ("zipT", inner[1])
         if name == "map" and len(a) == 2:
             return ("map", a[0], a[1])
         if name == "map" and len(a) == 3:
             return ("map2", a[0], a[1], a[2])
+        if name == "sum" and a and a[0][0] == "col":
+            return ("sumover", a[0][1])
         if name == "sum" and a:
             x = a[0]
             if x[0] == "comp":
@@ -1509,6 +1533,13 @@ class Interp:
                     out = it if out is None else ("bin", "+", out, it)
                 return out
             return ("call", "sum", x)
+        if name == "getattr" and len(a) >= 2 and a[1][0] == "const" and a[0][0] == "module":
+            mn, attr = a[0][1], a[1][1]
+            m2 = self.repo.mod(mn)
+            if (mn, attr) in self.namedtuples or attr in m2.funcs or attr in m2.assigns \
+                    or attr in m2.classes:
+                return self.e_Attribute_of_module(mn, attr)
+            return a[2] if len(a) == 3 else top(f"{mn} has no {attr}")
         if name == "getattr" and len(a) >= 2 and a[1][0] == "const":
             obj = a[0]
             if obj[0] == "nt":
